@@ -40,13 +40,15 @@ func (core *JApiCore) addMacro(d *directive.Directive) *jerr.JApiError {
 	}
 
 	core.macro[name] = d
+	core.macroNames = append(core.macroNames, name)
 
 	return nil
 }
 
 func (core *JApiCore) checkMacroForRecursion() *jerr.JApiError {
-	for macroName, macro := range core.macro {
-		if je := core.findPaste(macroName, macro); je != nil {
+	// In declaration order: the reported error must not depend on the map iteration order.
+	for _, macroName := range core.macroNames {
+		if je := core.findPaste(macroName, core.macro[macroName]); je != nil {
 			return je
 		}
 	}
